@@ -166,6 +166,48 @@ func c02KeyTables(run *PropRun) {
 		_, hasEmpty := tab[""]
 		g2 := run.AddObligation(fmt.Sprintf("keytable[%s]/nonempty-keys", te.Name), "table", BoolT(!hasEmpty), "the table built by prepareKeys has no empty key sequence (precondition of parseFunctionKey: a match consumes at least one byte)")
 		g2.ReplayGo = replayKeyTable(te.Name, `for a, k := range s.keycodes { if a == "" || k == nil { fail("empty sequence or nil entry in the key table"); return } }`)
+		// a report recognised by another parser (focus in/out; mouse where the terminal has one) that is a proper prefix
+		// of a key sequence: the real driver must give the same events whether the key arrives in one read or split
+		// right after the report (the longer sequence wins until the escape timeout decides otherwise)
+		_, fs, tp := buildKeyTable(db, te)
+		reports := []string{"\x1b[I", "\x1b[O"}
+		if db.str(te, "Mouse") != "" {
+			reports = append(reports, "\x1b[M", "\x1b[<")
+		}
+		for _, k := range seqs {
+			for _, r := range reports {
+				if len(r) >= len(k) || !strings.HasPrefix(k, r) {
+					continue
+				}
+				whole, w1 := decodeDriver(db, fs, tp, k)
+				split, w2 := decodeDriverChunks(db, fs, tp, []string{r, k[len(r):]})
+				same := w1 == "" && w2 == "" && len(whole) == len(split)
+				if same {
+					for i := range whole {
+						if whole[i] != split[i] {
+							same = false
+						}
+					}
+				}
+				g := run.AddObligation(fmt.Sprintf("keytable[%s]/split-after-report[%q]", te.Name, k), "table", BoolT(same),
+					fmt.Sprintf("the key sequence %q, of which the report %q is a proper prefix, decodes the same in one read (%v %s) and split after the report (%v %s)", k, r, whole, w1, split, w2))
+				g.ReplayGo = replayKeyTableImports(te.Name, []string{"bytes"}, fmt.Sprintf(`
+	s.cells.Resize(80, 24)
+	desc := func(evs []Event) string {
+		out := ""
+		for _, ev := range evs {
+			if k, ok := ev.(*EventKey); ok { out += fmt.Sprintf("[key %%d mod %%d rune %%d]", k.Key(), k.Modifiers(), k.Rune()) } else { out += fmt.Sprintf("[%%T]", ev) }
+		}
+		return out
+	}
+	whole := desc(s.collectEventsFromInput(bytes.NewBufferString(%q), false))
+	buf := bytes.NewBufferString(%q)
+	evs := s.collectEventsFromInput(buf, false)
+	buf.WriteString(%q)
+	evs = append(evs, s.collectEventsFromInput(buf, false)...)
+	if split := desc(evs); split != whole { fail("%%q in one read decodes to %%s, split after %%q to %%s", %q, whole, %q, split); return }`, k, r, k[len(r):], k, r))
+			}
+		}
 		n++
 	}
 	run.Extra["descriptions_whose_key_table_was_evaluated"] = n
@@ -517,9 +559,59 @@ func replayKeyTable(term, body string) string {
 // decodeDriver runs the REAL input driver (collectEventsFromInput, escape timeout not expired) on the concrete bytes and
 // returns the key events it produced (Seq holds a description when something other than key events came out).
 func decodeDriver(db *TermDB, base *State, tp PtrV, seq string) ([]keyEnt, string) {
+	return decodeDriverChunks(db, base, tp, []string{seq})
+}
+
+// decodeDriverChunks: the bytes arrive in several reads (the driver is called after each, timeout not expired); the
+// events of all calls are concatenated.
+func decodeDriverChunks(db *TermDB, base *State, tp PtrV, chunks []string) ([]keyEnt, string) {
+	if len(chunks) == 1 {
+		return decodeDriverOne(db, base, tp, chunks[0], nil)
+	}
+	// the buffer keeps what an earlier call left unconsumed: evaluate call by call on the same state
+	var all []keyEnt
+	st := base.clone()
+	st.Frames = nil
+	var carry *driverCarry
+	for _, ch := range chunks {
+		evs, why, next := decodeDriverStep(db, st, tp, ch, carry)
+		if why != "" {
+			return nil, why
+		}
+		all = append(all, evs...)
+		carry = next
+		st = next.st
+	}
+	return all, ""
+}
+
+type driverCarry struct {
+	st   *State
+	left string // bytes the previous call left in the buffer
+}
+
+func decodeDriverStep(db *TermDB, st *State, tp PtrV, chunk string, carry *driverCarry) ([]keyEnt, string, *driverCarry) {
+	left := ""
+	if carry != nil {
+		left = carry.left
+	}
+	evs, why, fs, rest := decodeDriverRun(db, st, tp, left+chunk)
+	return evs, why, &driverCarry{st: fs, left: rest}
+}
+
+func decodeDriverOne(db *TermDB, base *State, tp PtrV, seq string, _ *driverCarry) ([]keyEnt, string) {
+	st := base.clone()
+	st.Frames = nil
+	evs, why, _, _ := decodeDriverRun(db, st, tp, seq)
+	return evs, why
+}
+
+// decodeDriverRun: one call of the real driver on a buffer holding seq; returns the events, the state after the
+// call and the bytes left in the buffer.
+func decodeDriverRun(db *TermDB, st *State, tp PtrV, seq string) ([]keyEnt, string, *State, string) {
 	c := db.Ev.C
 	e := c.Eng
-	st := base.clone()
+	st = st.clone()
 	st.Frames = nil
 	bufT := e.PkgBy["bytes"].Types.Scope().Lookup("Buffer").Type()
 	bobj := c.newObject("buf", bufT)
@@ -536,30 +628,45 @@ func decodeDriver(db *TermDB, base *State, tp PtrV, seq string) ([]keyEnt, strin
 	st.Mem[bobj] = nb
 	paths, err := db.Ev.Call(st, e.FindFunc(modPath+".(*tScreen).collectEventsFromInput"), []Value{tp, PtrV{Obj: bobj}, False()})
 	if err != nil || len(paths) != 1 {
-		return nil, fmt.Sprintf("error %v paths=%d", err, len(paths))
+		return nil, fmt.Sprintf("error %v paths=%d", err, len(paths)), nil, ""
 	}
 	fs := paths[0].St
 	evs, ok := paths[0].Ret.(SliceV)
 	if !ok || evs.Heap {
-		return nil, "result is not a concrete slice"
+		return nil, "result is not a concrete slice", nil, ""
 	}
 	var out []keyEnt
+	// what is left in the buffer
+	rest := ""
+	{
+		nbv := c.mem(fs, bobj).(*StructV)
+		off := int(termInt(nbv.F[1]))
+		bl, isS := nbv.F[0].(SliceV)
+		if isS && bl.Obj != nil && !bl.Heap {
+			arr := c.mem(fs, bl.Obj).(*ArrayV)
+			for k := bl.COff + off; k < bl.COff+bl.CLen && k < len(arr.Elems); k++ {
+				if t, ok := arr.Elems[k].(*Term); ok && isNum(t) {
+					rest += string([]byte{byte(t.Val.Int64())})
+				}
+			}
+		}
+	}
 	if evs.Obj == nil {
-		return out, ""
+		return out, "", fs, rest
 	}
 	arr := c.mem(fs, evs.Obj).(*ArrayV)
 	for i := 0; i < evs.CLen; i++ {
 		ev, ok := arr.Elems[evs.COff+i].(IfaceV)
 		if !ok {
-			return nil, "event is not an interface value"
+			return nil, "event is not an interface value", nil, ""
 		}
 		pv, ok := ev.Val.(PtrV)
 		if !ok || pv.Obj == nil {
-			return nil, "event is not a pointer"
+			return nil, "event is not a pointer", nil, ""
 		}
 		es, ok := c.mem(fs, pv.Obj).(*StructV)
 		if !ok {
-			return nil, "event is not a struct"
+			return nil, "event is not a struct", nil, ""
 		}
 		est := under(es.Typ).(*types.Struct)
 		var got keyEnt
@@ -574,11 +681,12 @@ func decodeDriver(db *TermDB, base *State, tp PtrV, seq string) ([]keyEnt, strin
 			}
 		}
 		if !isKey {
-			return nil, "a non-key event came out"
+			out = append(out, keyEnt{Seq: "non-key event " + es.Typ.String(), Key: -1})
+			continue
 		}
 		out = append(out, got)
 	}
-	return out, ""
+	return out, "", fs, rest
 }
 
 func xtermBases() []string {
